@@ -39,9 +39,16 @@ def norm_expected(n):
     return "(%s %s%s)" % (kind, ident, "".join(" " + norm_expected(k) for k in kids if k[0] != "comment"))
 
 
-def innermost_ok(root, line_toks):
-    """the innermost node at the position of every identifier token is a node named by it"""
+def innermost_ok(root, line_toks, real=None):
+    """the innermost node at the position of every identifier token is a node named by it; `real` = the answers of the
+    services' own position lookup (harness mode `encase`: manager::utils::search_encasing_node on the annotated tree):
+    wherever the tree has a node named by the identifier as its innermost node, the real lookup must return a node of that name"""
     bad = []
+    found = {}
+    for w in (real or "").split(" "):
+        if "=" in w:
+            k, v = w.split("=", 1)
+            found[k] = v.split("|")
     nodes = list(root.walk())
     for w in line_toks:
         p = w.split(":")
@@ -62,6 +69,10 @@ def innermost_ok(root, line_toks):
         # names kept as attributes of a node (uses lists, the parent of a class, options / inverse of a reference type) are not nodes
         if best[1].ident != val and best[1].kids == [] and best[1].kind not in ("uses", "class", "type_ref"):
             bad.append((val, (l, c), best[1].kind, best[1].ident))
+        elif best[1].ident == val and real is not None and best[1].kind in ("terminal", "method_call", "array_access", "type_basic"):
+            f = found.get("%d:%d" % (l, c))
+            if f is None or core.unesc(f[1]) != val:
+                bad.append((val, (l, c), "position lookup of the services returns", "%s %s" % (f[0], core.unesc(f[1])) if f else "nothing"))
     return bad
 
 
@@ -137,7 +148,8 @@ def run(ctx):
     impl = ctx.run_harness("parse", lines, timeout=1200)
     model = ctx.run_driver(lines, timeout=1200)
     ctx.compare("parse", lines, impl, model)
-    for text, exp, line, a in zip(texts, expected, lines, impl):
+    encased = ctx.run_harness("encase", ["encase" + l[5:] if l.startswith("parse") else l for l in lines], timeout=1200)
+    for text, exp, line, a, enc_real in zip(texts, expected, lines, impl, encased):
         case = {"mode": "text", "text": text, "case": line}
         t, d = sexp.field(a, "T"), sexp.field(a, "D")
         if t is None:
@@ -161,7 +173,7 @@ def run(ctx):
             what, p, k = enc[0]
             ctx.oracle_fail("C06:range-does-not-enclose-child", "node %s %s %s does not enclose child %s %s %s" % (p.kind, p.ident, p.rng, k.kind, k.ident, k.rng), case)
             continue
-        inner = innermost_ok(root, line.split(" ")[1:])
+        inner = innermost_ok(root, line.split(" ")[1:], enc_real)
         if inner:
             ctx.oracle_fail("C06:innermost-node-is-not-the-identifier", "at identifier %s %s the innermost node is %s %s" % inner[0], case)
     ctx.samples = [{"text": texts[i][:400], "expected": norm_expected(expected[i])[:400]} for i in (0, len(texts) - 1, len(texts) // 2)]
@@ -247,8 +259,23 @@ def replay(ctx):
     ctx.build_harness()
     line = parsecases.texts_to_lines(ctx, [case["text"]])[0]
     a = ctx.run_harness("parse", [line])[0]
+    enc = ctx.run_harness("encase", ["encase" + line[5:]])[0]
     print("text:\n" + case["text"])
     print("tree :", sexp.field(a, "T"))
     print("diags:", core.unesc(sexp.field(a, "D") or ""))
     print("want :", case.get("want", ""))
-    return 1 if sexp.field(a, "D") else 0
+    bad = []
+    if sexp.field(a, "D"):
+        bad.append("diagnostics on a well-formed program")
+    t = sexp.field(a, "T")
+    if t:
+        root = sexp.parse(t)
+        if case.get("want") and case.get("got") and case["want"] not in norm_shape(root):
+            bad.append("tree differs from the intended tree near " + case["want"][:80])
+        bad += ["range does not enclose child: %s" % (x,) for x in ranges.encloses(root)[:1]]
+        bad += ["innermost node: %s" % (x,) for x in innermost_ok(root, line.split(" ")[1:], enc)[:3]]
+    for b in bad:
+        print("fails:", b)
+    if bad:
+        print("VIOLATION property=C06 replay=%s" % ctx.replay)
+    return 1 if bad else 0
